@@ -47,6 +47,8 @@ SHIFT = np.array([10.0, -7.0, 3.0])
 EXCITABLE = ["H2O", "H2CO", "NH3", "HCN", "CH3OH", "CH3F", "H2COH+", "HCOO-"]
 PM6_MOLS = ["H2S", "HCl", "SO2", "CH3Cl", "H2O"]
 ALL_NAMED = list(M.MOLS) + list(L.EXTRA)
+# molecules with the same number of atoms and other elements in the same slots (driver-history cases)
+MATE = {"H2O": "HCN", "HCN": "H2O", "H2S": "H2O", "NH3": "H2CO", "H2CO": "NH3", "CH4": "CH3Cl", "CH3Cl": "CH4", "CH3F": "CH4"}
 
 
 def _params(case, uhf):
@@ -84,6 +86,12 @@ def run_case(case):
         # optimiser do) to a compressed one, where the identities are evaluated; frontier orbitals re-order in between
         first = [_stretched(m, 0.40) for m in mols]
         mols = [_stretched(m, -0.15) for m in mols]
+    prev = None
+    if case.get("driver_history"):
+        # the SAME driver and Constants objects served another system of the same padded shape (other elements in the
+        # same slots) before: what a user script with one `const` and one driver does
+        mate = M.apply(L.get_named(MATE[case["spec"]["mol"]]), M.generic_rot(case.get("seed", 0) + 2))
+        prev = [mate, M.apply(mate, None, SHIFT)] if case["layout"] == "pair" else [mols[0], mate]
     target = mols[-1]
     uhf = bool(case["uhf"]) or target["mult"] != 1
     act = case["excited"][1] if case["excited"] else 0
@@ -101,7 +109,15 @@ def run_case(case):
         if hz:
             hz.__enter__()
         try:
-            molecule, es = sp.build(first or mols, params, pad_extra=pad)
+            if prev:
+                molecule0, es = sp.build(prev, params, pad_extra=pad)
+                if act:
+                    molecule0.active_state = act
+                molecule0.verbose = False
+                es(molecule0, **({} if case["force"] else {"do_force": False}))
+                molecule, _ = sp.build(mols, params, pad_extra=pad, const=molecule0.const, es=es)
+            else:
+                molecule, es = sp.build(first or mols, params, pad_extra=pad)
             if act and case.get("mixed_active"):
                 # per-molecule request mixing a ground-state and an excited molecule in one call
                 import torch as _t
@@ -232,6 +248,19 @@ def lattice(tier, seed):
                     for ex in (("cis", 1), ("rpa", 2)) if tier == "quick" else (("cis", 1), ("cis", 2), ("rpa", 1), ("rpa", 2)):
                         add(method, name, "adaptive", False, False, ex, True, layout, "generic")
                         cases[-1]["revisit"] = True
+    # driver and Constants objects with a history: they served a system of the same padded shape with other elements first
+    for method in ["AM1", "PM3"] if tier == "quick" else methods:
+        for name in MATE:
+            if not _supported(method, L.get_named(name)) or not _supported(method, L.get_named(MATE[name])):
+                continue
+            for layout in ("pair", "mixed"):
+                for uhf in (False, True):
+                    add(method, name, "adaptive", False, uhf, None, True, layout, "generic")
+                    cases[-1]["driver_history"] = True
+                if name in EXCITABLE and MATE[name] in EXCITABLE:
+                    for force in (True, False):
+                        add(method, name, "adaptive", False, False, ("cis", 1), force, layout, "generic")
+                        cases[-1]["driver_history"] = True
     for name in PM6_MOLS:
         for solver in solvers:
             for layout, orient in layouts:
@@ -243,7 +272,7 @@ def key(c):
     ex = "S0" if not c["excited"] else f"{c['excited'][0]}{c['excited'][1]}"
     return (
         f"{c['method']}|{c['spec']['mol']}|{c['spec']['orient']}|{c['solver']}|sp2={int(c['sp2'])}|"
-        f"{'UHF' if c['uhf'] else 'RHF'}|{ex}|{'F' if c['force'] else 'E'}|{c['layout']}" + ("|active=[0,k]" if c.get("mixed_active") else "") + ("|revisit" if c.get("revisit") else "")
+        f"{'UHF' if c['uhf'] else 'RHF'}|{ex}|{'F' if c['force'] else 'E'}|{c['layout']}" + ("|active=[0,k]" if c.get("mixed_active") else "") + ("|revisit" if c.get("revisit") else "") + ("|driver-history" if c.get("driver_history") else "")
     )
 
 
@@ -256,7 +285,7 @@ def describe(c, identity, row, err, tol):
         orient=c["spec"]["orient"], solver=c["solver"], sp2=bool(c["sp2"]), spin="UHF" if uhf else "RHF",
         charge=int(m["charge"]), mult=int(m["mult"]), excited="S0" if not c["excited"] else f"{c['excited'][0]}{c['excited'][1]}",
         force_requested=bool(c["force"]), layout=c["layout"], err=err, tol=tol,
-        elements=",".join(str(z) for z in sorted(set(m["species"]))), history="revisit" if c.get("revisit") else "fresh",
+        elements=",".join(str(z) for z in sorted(set(m["species"]))), history="revisit" if c.get("revisit") else "driver-history" if c.get("driver_history") else "fresh",
     )  # fmt: skip
     return d
 
